@@ -4,7 +4,7 @@
    from the freshly generated derived.gen.go. *)
 From Coq Require Import List NArith.
 Import ListNotations.
-From Verif Require Import Chan.Sem Chan.Expected Chan.Lemmas Chan.FmapProofs Chan.DupProofs Chan.JoinCC Chan.JoinCCLive Chan.JoinSl Chan.JoinSlLive Chan.Explore Chan.Bounded.
+From Verif Require Import Chan.Sem Chan.Expected Chan.Lemmas Chan.FmapProofs Chan.DupProofs Chan.JoinCC Chan.JoinCCLive Chan.JoinSl Chan.JoinSlLive Chan.Explore Chan.Bounded Chan.EnabledComplete Chan.Pipe Chan.PipeLive.
 
 (* ---------------- deriveFmap(f, <-chan) ---------------- *)
 Theorem C19_fmap_safety : forall (f : item -> item) xs cin cout s,
@@ -156,14 +156,57 @@ Theorem C19_joinvar_bounded_partial :
 Proof. exact (conj joinvar2_bounded joinvar3_bounded). Qed.
 Print Assumptions C19_joinvar_bounded_partial.
 
-(* derivePipeline(f, g) = Join . Fmap(g): the composed system (fmap's goroutine as the producer of
-   join's input) explored exhaustively for the listed configurations.  The translator checks the
-   composition shape on every run and C19_fmap_* / C19_joincc_* are proved for all sizes for the
-   two components (join: for the environment producer that fmap's output is shown to behave as:
-   sends map f xs in order, then closes).  MISSING: the simulation lemma that lets the fmap
-   goroutine replace join's outer producer for all sizes. *)
-Theorem C19_pipeline_compose_bounded_partial :
-  forallb (fun cfg => match found (pipe_search_one cfg) with None => true | Some _ => false end)
-          pipe_configs = true.
-Proof. exact pipeline_bounded. Qed.
-Print Assumptions C19_pipeline_compose_bounded_partial.
+(* ---------------- derivePipeline(f, g) = deriveJoin . deriveFmap(g): the COMPOSED system ---------------- *)
+(* PP = join main, forwarder, fmap goroutine: exactly the two programs the translator reports for
+   derivePipeline (checked equal to exp_pipeline on every run).  Threads: producer of b = f(a),
+   the goroutine of deriveFmap(g, b), the goroutine of deriveJoin, the consumer, the producers of the
+   channels g returns, the spawned forwarders.  g maps the items of b, in order, to those channels. *)
+Theorem C19_pipeline_programs :
+  PP = fn_progs (fst exp_pipeline) ++ fn_progs (snd exp_pipeline).
+Proof. reflexivity. Qed.
+Print Assumptions C19_pipeline_programs.
+
+Theorem C19_pipeline_safety : forall (f : item -> item) inputs xs cb cin cout s,
+  map f xs = seq 3 (length inputs) ->
+  reach f PP (pipe_init inputs xs cb cin cout) s ->
+  panicked s = false
+  /\ (exists dls, length dls = length inputs /\ Merge dls (cons_log s 3 ++ ch_buf s 2) /\
+        forall j cp its dl, nth_error inputs j = Some (cp, its) -> nth_error dls j = Some dl ->
+                            exists rest, its = dl ++ rest)
+  /\ (ch_closed s 2 = true ->
+        prod_done s 0 = true /\ ch_closed s 0 = true /\ ch_buf s 0 = []
+        /\ ch_closed s 1 = true /\ ch_buf s 1 = []
+        /\ option_map (halted PP) (nth_error (thr s) 1) = Some true
+        /\ wg s = 0 /\ length (thr s) = 4 + length inputs + length inputs
+        /\ (forall j, j < length inputs ->
+               prod_done s (4 + j) = true /\ ch_closed s (3 + j) = true /\ ch_buf s (3 + j) = []
+               /\ option_map (halted PP) (nth_error (thr s) (4 + length inputs + j)) = Some true)
+        /\ Merge (map snd inputs) (cons_log s 3 ++ ch_buf s 2)).
+Proof. exact pipeline_safety. Qed.
+Print Assumptions C19_pipeline_safety.
+
+Theorem C19_pipeline_deadlock_free_no_leak : forall (f : item -> item) inputs xs cb cin cout s,
+  map f xs = seq 3 (length inputs) ->
+  reach f PP (pipe_init inputs xs cb cin cout) s -> stuck f PP s ->
+  all_halted PP s = true /\ Merge (map snd inputs) (cons_log s 3) /\ ch_closed s 2 = true.
+Proof. exact pipeline_stuck_is_done. Qed.
+Print Assumptions C19_pipeline_deadlock_free_no_leak.
+
+Theorem C19_pipeline_measure_decreases : forall (f : item -> item) inputs xs cb cin cout s act s',
+  map f xs = seq 3 (length inputs) ->
+  reach f PP (pipe_init inputs xs cb cin cout) s -> step f PP s act = Some s' -> Pipe.mu s' < Pipe.mu s.
+Proof. exact pipeline_measure_decreases. Qed.
+Print Assumptions C19_pipeline_measure_decreases.
+
+Theorem C19_pipeline_terminates : forall (f : item -> item) inputs xs cb cin cout l s,
+  map f xs = seq 3 (length inputs) ->
+  run f PP (pipe_init inputs xs cb cin cout) l = Some s ->
+  length l <= Pipe.mu (pipe_init inputs xs cb cin cout).
+Proof. exact pipeline_terminates. Qed.
+Print Assumptions C19_pipeline_terminates.
+
+(* ---------------- the explorer's enumeration of enabled actions is complete ---------------- *)
+Theorem C19_enabled_complete : forall (f : item -> item) P s a s',
+  step f P s a = Some s' -> In a (enabled f P s).
+Proof. exact enabled_complete. Qed.
+Print Assumptions C19_enabled_complete.
